@@ -132,6 +132,8 @@ static const int TYPES[] = { 2, 1, 10, 65399, 16, 33, 15, 5, 28 };
 
 /* job = (tunnel domain, how the query reaches the server): IPv4 asker; IPv6 asker on the IPv6 listening socket;
  * IPv6 asker with an external address configured (-n) */
+/* (a server that does not start with a valid domain is C17's business: this part just cannot run) */
+static void boot_failed(const struct w_server_cfg *c, int state) { (void)c; (void)state; }
 static struct sockaddr_storage X4, X6; static socklen_t ALEN4, ALEN6;
 static void job(int j)
 {
@@ -143,7 +145,9 @@ static void job(int j)
 	W.hooks.on_sanitizer = on_san;
 	if (variant == 2) c.ns_ip = "192.0.2.53";
 	NS_IP_SET = variant == 2;
+	adv_boot_failed = boot_failed;
 	adv_boot(&c, variant != 0, 1);
+	if (!vw_alive(0) || W.proc[0].state != VW_P_SELECT) { __atomic_fetch_add(&XS->incomplete, 1, __ATOMIC_RELAXED); return; }
 	char name[600], pre[300];
 	static const char SYM[] = { 'a', 'A', '0', '-', (char)0xe9, 'z', 'n', 'w' };
 	int nsym = thorough ? 8 : 6;
